@@ -19,7 +19,7 @@ TRUSTED = ['lean/Spec/{Md4,Md5,Sha1,Sha2,MerkleDamgard,Bytes}.lean as renderings
            'hashlib for md5/sha1/sha2 incl. 512/t and against small references for MD4/SHA-0: supporting evidence only)',
            'Model.Padding (owned by C09) and Model.Bits (C07/C08) are shared models tied by their own correspondence streams and by this one']
 ASSUMPTIONS = ['python -O (asserts stripped) is out of scope',
-               'bitlen=0 together with a non-empty message is outside the property (0 < L); the code treats it as "omitted" in the block loop and as 0 in the padding: compared code<->model only']
+               'bitlen=0 together with a non-empty message is outside the property (0 < L); the code hashes the empty bit string: compared code<->model only']
 
 run_impl = HC.run_impl
 
